@@ -1,7 +1,7 @@
 """Shared machinery of the /verif checks (python3 stdlib only)."""
 import fcntl
 import hashlib
-import json
+import json, shutil
 import os
 import re
 import subprocess
@@ -57,6 +57,13 @@ def gen_consts():
     """regenerate coq/gen/Consts.v from the working tree; returns (ok, message)"""
     with Lock("coq"):
         rc, out = sh([sys.executable, os.path.join(VERIF, "tools", "gen_consts.py"), "--repo", REPO], timeout=60)
+        tgt = os.path.join(COQ, "gen", "Consts.v")
+        fb = os.path.join(COQ, "gen", "Consts.pinned")
+        if rc != 0 and not os.path.exists(tgt) and os.path.exists(fb):
+            # the tie is broken (reported by the caller); the constants of the pinned tree are used ONLY so that the
+            # model still builds and the search for a concrete failing input can run
+            shutil.copyfile(fb, tgt)
+            out = out.strip() + " [model built with the pinned tree's constants for the failing-input search]"
     return rc == 0, out.strip()
 
 
